@@ -70,7 +70,8 @@ def generate(seed, tier):
         storage_kind = "file"
     rec = {"prop": ID, "seed": seed, "config": cfg.describe(), "storage_kind": storage_kind,
            "frontend": fe, "copy_to_ram": mrng.random() < 0.3,
-           "policy": mrng.choice((["uniform"], ["sticky", 0.5], ["sticky", 0.9], ["sticky", 0.99])),
+           "policy": mrng.choice((["uniform"], ["sticky", 0.5], ["sticky", 0.9], ["sticky", 0.99],
+                                  ["pct", mrng.randint(1, 3), mrng.choice((300, 1500, 4000))])),
            "schedule": None}
     merges = ("none", "none", "default", "optimize")
     if fe in ("plain", "mp", "mpmulti", "serialmp"):
